@@ -1539,6 +1539,16 @@ def expand_table_spreads(trees: Dict[str, ast.Module]) -> int:
                         keys += [copy.deepcopy(kk) for kk in ks]
                         vals += [copy.deepcopy(each) for _ in ks]
                         continue
+                    if isinstance(x, ast.DictComp) and len(x.generators) == 1 and not x.generators[0].ifs and isinstance(x.generators[0].target, ast.Name) \
+                            and isinstance(x.key, ast.Name) and x.key.id == x.generators[0].target.id and isinstance(x.generators[0].iter, ast.Name) \
+                            and x.generators[0].iter.id in tables and isinstance(x.value, (ast.Name, ast.Attribute, ast.Constant)) \
+                            and not (isinstance(x.value, ast.Name) and x.value.id == x.key.id):
+                        # **{k: value for k in other_table}
+                        src = tables[x.generators[0].iter.id]
+                        ks = src.keys if isinstance(src, ast.Dict) else src.elts
+                        keys += [copy.deepcopy(kk) for kk in ks]
+                        vals += [copy.deepcopy(x.value) for _ in ks]
+                        continue
                     ok = False
                     break
                 lits = [kk.value for kk in keys if isinstance(kk, ast.Constant)]
